@@ -131,7 +131,7 @@ def ext_getters(ck):
 def py_getters(ck):
     mod = pyload.module("digital_rf_hdf5", symbolic=False)
     W = mod.DigitalRFWriter
-    for nm in ("get_last_file_written", "get_last_dir_written", "get_last_utc_timestamp", "close"):
+    for nm in ("get_last_file_written", "get_last_dir_written", "get_last_utc_timestamp", "close", "get_next_available_sample", "get_total_samples_written", "get_total_gap_samples"):
         ck.add_function(pyload.source_info(mod, "DigitalRFWriter." + nm))
     real = mod._py_rf_write_hdf5
     calls = []
@@ -155,6 +155,10 @@ def py_getters(ck):
                   "after close: channel released=%s values %s (extension calls during close: %d)" % (closed, after, n_after), {})
         w.close()       # closing twice is harmless
         ck.struct("py.get.close_twice", (w.get_last_file_written(), w.get_last_dir_written(), w.get_last_utc_timestamp()) == ("<file>", "<dir>", 1234), "second close lost the stored values", {})
+        w2 = object.__new__(W)
+        w2._next_avail_sample, w2._total_samples_written, w2._total_gap_samples = 111, 70, 41
+        ck.struct("py.get.counters", (w2.get_next_available_sample(), w2.get_total_samples_written(), w2.get_total_gap_samples()) == (111, 70, 41),
+                  "counter getters return %s for (next, written, gaps) = (111, 70, 41)" % ((w2.get_next_available_sample(), w2.get_total_samples_written(), w2.get_total_gap_samples()),), {})
     except Exception as e:
         ck.struct("py.get.total", False, "getter raised %r" % (e,), {})
     finally:
